@@ -296,6 +296,18 @@ Definition colmean (rows : list (list Q)) : list Q :=
   | [] => []
   | r :: _ => map (fun k => meanQ (map (fun row => nthQ row k) rows)) (seq 0 (List.length r))
   end.
+(* TEMPO_NORMALIZATION as the model reads it: index, role of each column (0 value / ratio / standard score,
+   1 mean, 2 standard deviation), first column logarithmic; reflected from the live table on every run
+   (Gen/C18_norm.v, Props/C18.v normalisation_table_reflected) *)
+Definition norm_table_model : list (Z * list Z * bool) :=
+  [(0%Z, [0%Z], false); (1%Z, [0%Z], true); (2%Z, [0%Z; 1%Z], false); (3%Z, [0%Z; 1%Z], true); (4%Z, [0%Z; 1%Z; 2%Z], false)].
+(* rescale_n read through the roles: value * (std if any, else mean if any, else 1) + (mean if a std is there) *)
+Definition role_get (roles : list Z) (c : list Q) (role : Z) (d : Q) : Q :=
+  match find (fun p => Z.eqb (fst p) role) (combine roles c) with Some p => snd p | None => d end.
+Definition rescale_roles (roles : list Z) (c : list Q) : Q :=
+  let v := role_get roles c 0 0 in
+  if existsb (Z.eqb 2) roles then v * role_get roles c 2 1 + role_get roles c 1 0
+  else v * role_get roles c 1 1.
 (* the scale functions that are rational given their constants (mean mu, standard deviation s) *)
 Definition std_z (mu s x : Q) : Q := if Qeq_bool s 0 then 0 else (x - mu) / s.
 Definition scale_n (norm : Z) (mu s x : Q) : list Q :=
